@@ -198,6 +198,11 @@ def check(case):
         for k in range(3):
             worst = max(worst, _cmp(Fc[k], refL[k], scL[k], tol, "consistency", "euler1d/%s F(W,W) eq %d" % (flux, k)))
         F = num(rL, uL, pL, rR, uR, pR)
+        # purity: the arguments are left untouched and a second call gives the same bits
+        argL, argR = [rL.copy(), uL.copy(), pL.copy()], [rR.copy(), uR.copy(), pR.copy()]
+        F2 = [np.asarray(x, dtype=float) for x in model.numflux(flux, argL, argR)]
+        require(all(np.array_equal(a, b) for a, b in zip(argL + argR, [rL, uL, pL, rR, uR, pR])), "numflux-mutates-arguments", "euler1d/%s modified its argument arrays" % flux)
+        require(all(np.array_equal(a, b) for a, b in zip(F, F2)), "numflux-repeatable", "euler1d/%s gives different results on identical calls" % flux)
         Fm = num(rR, -uR, pR, rL, -uL, pL)
         for k, sgn in ((0, -1.0), (1, 1.0), (2, -1.0)):
             worst = max(worst, _cmp(Fm[k], sgn * F[k], scales[k], tol, "mirror", "euler1d/%s eq %d" % (flux, k)))
